@@ -28,3 +28,22 @@ Theorem c06_history : forall file ops, ops_ok [] ops ->
   map erase (run (init file) ops) = map erase (srun (sinit file) ops).
 Proof. exact StoreRefine.c01_refines_sorted_map. Qed.
 Print Assumptions c06_history.
+
+(* ---------------------------------------------------------------------------------------------- *)
+(* REGENERATED FROM THE SOURCE ON EVERY RUN (tools/gen -> Generated.g_code; Decisions.v): the decisions the model
+   takes at these points are the evaluations of the conditions the Go source has there, for all values of their
+   variables. *)
+From GK Require Import GExpr Generated Decisions.
+From Coq Require Import String.
+
+(* ascendChoice / descendChoice are the choices of Treap.visit *)
+Theorem c06_ascend_choice_is_source :
+  exists c, choice_of "ascendChoice" = Some c /\
+    forall o : comparison, gtrue (upd env0 "cmp" (cmpz o)) c = Some (match o with Gt => false | _ => true end).
+Proof. exact Decisions.ascend_choice_decision. Qed.
+Print Assumptions c06_ascend_choice_is_source.
+Theorem c06_descend_choice_is_source :
+  exists c, choice_of "descendChoice" = Some c /\
+    forall o : comparison, gtrue (upd env0 "cmp" (cmpz o)) c = Some (match o with Gt => true | _ => false end).
+Proof. exact Decisions.descend_choice_decision. Qed.
+Print Assumptions c06_descend_choice_is_source.
